@@ -113,4 +113,7 @@ theorem auth_sys_squashed (ms mg : Nat) (c : Option IP) (es : List AllowEntry) (
 /-- regenerated from the source on every run: HandleCall copies the squashed identity into the request context unconditionally (every flavor) -/
 theorem gen_identity_applied : Gen.handleCallAppliesIdentity = true := by decide
 
+/-- regenerated from the source on every run: the connection loop builds the authentication context inside its request loop, from that call's credential -/
+theorem gen_conn_loop_identity_per_call : Gen.connLoopAuthPerCall = true := by decide
+
 end Props.C10
